@@ -11,6 +11,10 @@ seeds = []
 for d in sorted(os.listdir(root)):
     if not os.path.isdir(os.path.join(root, d)):
         continue
+    if os.path.exists(os.path.join(root, d, "patch.diff")):
+        # flat layout (/verif/seeded/<PID><letter>/patch.diff)
+        seeds.append((d[:3], d[3:], os.path.join(root, d, "patch.diff")))
+        continue
     for v in sorted(os.listdir(os.path.join(root, d))):
         p = os.path.join(root, d, v, "patch.diff")
         if os.path.exists(p):
@@ -46,7 +50,8 @@ with ThreadPoolExecutor(max_workers=jobs) as ex:
 table = {}
 for (d, v, _), out in results:
     table["%s/%s" % (d, v)] = out
-json.dump(table, open(os.path.join(root, "matrix.json"), "w"), indent=1)
+out_path = sys.argv[sys.argv.index("--out") + 1] if "--out" in sys.argv else os.path.join(root, "matrix.json")
+json.dump(table, open(out_path, "w"), indent=1)
 print("seed    own  others(rc=1)            cannot-decide(rc=2)")
 for k, out in table.items():
     if "error" in out:
